@@ -242,24 +242,140 @@ func c17Valid(c *core.Ctx) {
 			}
 		}
 	}
-	// log: one entry naming each missing parameter / input, none naming a supplied one
+	// log: one entry naming each missing parameter / input, none naming a supplied one.
+	// "Names X" is decided without relying on the wording: an entry names X if it contains X as a
+	// whole word and - when that alone is ambiguous (X is also an ordinary word of the messages, or the
+	// entry is explained by another missing item) - by a paired request that differs only in X.
 	logAll := strings.Join(resp.Log, "\n")
-	for _, p := range desc.Parameters {
-		named := logNames(resp.Log, p.Name)
-		if !suppliedP[p.Name] && !named {
-			c.Violate("missing-parameter-not-reported", model, fmt.Sprintf("parameter %s was not supplied but the log does not mention it: %q", p.Name, logAll))
+	runLog := func(r jReq) []string {
+		b, _ := json.Marshal(r)
+		so2, _, ex, err := runOwSingle(b)
+		c.Count("child_processes", 1)
+		if err != nil || ex != 0 {
+			return nil
 		}
-		if suppliedP[p.Name] && named {
-			c.Violate("supplied-parameter-reported-missing", model, fmt.Sprintf("parameter %s was supplied but the log mentions it: %q", p.Name, logAll))
+		r2, err := exactlyOneJSON(so2)
+		if err != nil {
+			return nil
+		}
+		return r2.Log
+	}
+	withParam := func(r jReq, name string, v float64) jReq {
+		r2 := r
+		r2.Parameters = append(append([]jNameValue{}, r.Parameters...), jNameValue{name, v})
+		return r2
+	}
+	withInput := func(r jReq, name string) jReq {
+		r2 := r
+		r2.Inputs = append(append([]jInput{}, r.Inputs...), jInput{name, make([]float64, T)})
+		return r2
+	}
+	containing := func(log []string, name string) []string {
+		var res []string
+		for _, l := range log {
+			if logNames([]string{l}, name) {
+				res = append(res, l)
+			}
+		}
+		return res
+	}
+	inLog := func(log []string, e string) bool {
+		for _, l := range log {
+			if l == e {
+				return true
+			}
+		}
+		return false
+	}
+	generic := map[string]bool{"input": true, "inputs": true, "parameter": true, "parameters": true, "output": true, "default": true, "using": true, "missing": true, "value": true, "series": true, "model": true, "found": true, "not": true}
+	type item struct {
+		name    string
+		isParam bool
+		val     float64
+	}
+	var missing []item
+	for i, p := range desc.Parameters {
+		if !suppliedP[p.Name] && len(p.Dimensions) == 0 {
+			missing = append(missing, item{p.Name, true, ps[i][0]})
 		}
 	}
 	for _, n := range desc.Inputs {
-		named := logNames(resp.Log, n)
-		if !suppliedI[n] && !named {
-			c.Violate("missing-input-not-reported", model, fmt.Sprintf("input %s was not supplied but the log does not mention it: %q", n, logAll))
+		if !suppliedI[n] {
+			missing = append(missing, item{n, false, 0})
 		}
-		if suppliedI[n] && named {
-			c.Violate("supplied-input-reported-missing", model, fmt.Sprintf("input %s was supplied but the log mentions it: %q", n, logAll))
+	}
+	plus := func(it item) []string {
+		if it.isParam {
+			return runLog(withParam(req, it.name, it.val))
+		}
+		return runLog(withInput(req, it.name))
+	}
+	for _, it := range missing {
+		cands := containing(resp.Log, it.name)
+		kind := map[bool]string{true: "missing-parameter-not-reported", false: "missing-input-not-reported"}[it.isParam]
+		what := map[bool]string{true: "parameter", false: "input"}[it.isParam]
+		if len(cands) == 0 {
+			c.Violate(kind, model, fmt.Sprintf("%s %s was not supplied but no log entry mentions it: %q", what, it.name, logAll))
+			continue
+		}
+		if generic[strings.ToLower(it.name)] || len(missing) > 1 {
+			// some entry containing the name must be there BECAUSE this item is missing
+			lp := plus(it)
+			if lp != nil {
+				caused := false
+				for _, e := range cands {
+					if !inLog(lp, e) {
+						caused = true
+					}
+				}
+				if !caused {
+					c.Violate(kind, model, fmt.Sprintf("%s %s was not supplied; the log entries containing its name (%q) are all still there when it is supplied, so none of them reports it: %q", what, it.name, cands, logAll))
+				}
+			}
+		}
+	}
+	var logB []string
+	haveB := false
+	checkSupplied := func(name, what, kind string) {
+		S := containing(resp.Log, name)
+		if len(S) == 0 {
+			return
+		}
+		if !haveB {
+			full := req
+			for _, it := range missing {
+				if it.isParam {
+					full = withParam(full, it.name, it.val)
+				} else {
+					full = withInput(full, it.name)
+				}
+			}
+			logB = runLog(full)
+			haveB = true
+		}
+		for _, e := range S {
+			explained := inLog(logB, e) // a line that is there whatever is supplied
+			for _, it := range missing {
+				if explained {
+					break
+				}
+				if lp := plus(it); lp != nil && !inLog(lp, e) {
+					explained = true // the entry reports another, missing item
+				}
+			}
+			if !explained {
+				c.Violate(kind, model, fmt.Sprintf("%s %s was supplied but the log has an entry naming it: %q", what, name, e))
+			}
+		}
+	}
+	for _, p := range desc.Parameters {
+		if suppliedP[p.Name] {
+			checkSupplied(p.Name, "parameter", "supplied-parameter-reported-missing")
+		}
+	}
+	for _, n := range desc.Inputs {
+		if suppliedI[n] {
+			checkSupplied(n, "input", "supplied-input-reported-missing")
 		}
 	}
 	// in-process runner (nested arrays instead of maps) must agree as well
@@ -293,13 +409,8 @@ func c17Valid(c *core.Ctx) {
 
 // logNames: some log entry contains name as a whole word
 func logNames(log []string, name string) bool {
-	need := 1
-	if name == "input" || name == "parameter" || name == "default" || name == "using" || name == "found" || name == "not" {
-		need = 2 // the name is also a word of the message template: it must occur beyond that use
-	}
 	for _, l := range log {
 		idx := 0
-		cnt := 0
 		for {
 			i := strings.Index(l[idx:], name)
 			if i < 0 {
@@ -309,10 +420,7 @@ func logNames(log []string, name string) bool {
 			before := i == 0 || !isWordByte(l[i-1])
 			after := i+len(name) == len(l) || !isWordByte(l[i+len(name)])
 			if before && after {
-				cnt++
-				if cnt >= need {
-					return true
-				}
+				return true
 			}
 			idx = i + 1
 		}
